@@ -68,6 +68,11 @@ SPECIAL = [
     ('described', ["length = Int(1).describe(AutoLength('a'))", 'a = Data(length)', 'z = Int(2)'], ''),
     ('described-run', ['x = Int(1)', "length = Int(2).describe(AutoLength('a'))", 'y = Int(1)', 'a = Data(length)'], ''),
     ('described-auto', ["bits = Int(1).describe(Auto(lambda pkt: len(pkt.a) * 8))", 'a = Data(bits // 8)'], ''),
+    # described AND positioned (a move pseudo-field precedes the described one); the stored value may disagree with the computed one
+    ('described-auto-at', ["bits = Int(1).describe(Auto(lambda pkt: len(pkt.a) * 8)).at(1)", 'a = Data(bits // 8)', 'z = Int(1)'], ''),
+    ('described-auto-shift', ['x = Int(1)', "bits = Int(2).shift(1).describe(Auto(lambda pkt: len(pkt.a) * 8))", 'a = Data(bits // 8).aligned(2)'], ''),
+    ('described-class-align', ['x = Int(1)', "bits = Int(1).describe(Auto(lambda pkt: len(pkt.a) * 8))", 'a = Data(bits // 8)'], 'ALIGN'),
+    ('described-at', ["length = Int(1).describe(AutoLength('a')).at(1)", 'a = Data(length)', 'z = Int(2)'], ''),
     ('embed', ['pt = Ref(Pt(x=1, y=2), embed=True)', 'z = Int(1)'], mk.class_src('Pt', ['x = Int(1)', 'y = Int(2, endianness="little")'])),
     ('embed-mid', ['m = Data(until_marker=b"\\x00")', 'pt = Ref(Pb(), embed=True)', 'z = Int(2)'],
      mk.class_src('Pb', ['p = Bits(4)', 'q = Bits(4)', 'n = Int(1)', 'd = Data(n)'])),
